@@ -90,6 +90,9 @@ Proof.
   destruct i; [cbn in H; inversion H; subst; reflexivity|]. rewrite upd_cons_S. cbn. apply IH. exact H.
 Qed.
 
+Lemma upd_none f (st : sstate) i : nth_error st i = None -> nth_error (upd st i f) i = None.
+Proof. intros E. apply nth_error_None. rewrite upd_length. apply nth_error_None, E. Qed.
+
 Lemma getu_nth_error (st : sstate) i u : nth_error st i = Some u -> getu st i = u.
 Proof. intros H. unfold getu. apply nth_error_nth. exact H. Qed.
 
@@ -176,8 +179,20 @@ Record ce_ok (e : cache_entry) : Prop := mk_ce_ok {
 
 Definition qm_ok (e : qmem_entry) : Prop := length (qm_cmc e) = 4%nat.
 
-Record user_ok (u : suser) : Prop := mk_user_ok {
-  uo_in : in_ok (u_in u);
+(* what survives of in_ok while a raw-mode data frame is being handed to handle_full_packet
+   (inpacket.len = frame length, inpacket.offset = 0 until the packet is done) *)
+Record in_okw (p : pkt) : Prop := mk_in_okw {
+  inw_data : (length (p_data p) <= K64)%nat;
+  inw_seq : p_seqno p < 8;
+  inw_frag : (0 <= p_fragment p <= 15)%Z }.
+
+Lemma in_ok_w p : in_ok p -> in_okw p.
+Proof. intros []. constructor; assumption. Qed.
+
+(* the invariant of one session; P is the condition on the reassembly buffer (in_ok, or in_okw
+   inside handle_raw_data) *)
+Record user_ok_gen (P : pkt -> Prop) (u : suser) : Prop := mk_user_ok {
+  uo_in : P (u_in u);
   uo_out : outp_ok (u_out u);
   uo_resent : u_resent u <= 6;
   uo_q : hq_ok (u_q u);
@@ -196,6 +211,8 @@ Record user_ok (u : suser) : Prop := mk_user_ok {
   uo_data_len : length (u_datamem u) = DATALEN;
   uo_data : Forall qm_ok (u_datamem u);
   uo_data_last : (u_datamem_last u < DATALEN)%nat }.
+
+Notation user_ok := (user_ok_gen in_ok).
 
 Definition state_ok (st : sstate) : Prop := Forall user_ok st.
 
@@ -218,13 +235,16 @@ Proof. constructor; cbn; unfold K4096; lia. Qed.
 Lemma Forall_repeat {A} (P : A -> Prop) x n : P x -> Forall P (repeat x n).
 Proof. intros H. induction n; cbn; constructor; auto. Qed.
 
-Lemma user_init_ok ip : user_ok (user_init ip).
+Lemma user_init_ok_gen (P : pkt -> Prop) ip : P pkt0 -> user_ok_gen P (user_init ip).
 Proof.
-  pose proof ring_sizes as (HQ & HC & HP & HD).
-  constructor; cbn; try apply pkt0_in_ok; try apply pkt0_outp_ok; try apply hq0_ok;
+  intros HP0. pose proof ring_sizes as (HQ & HC & HP & HD).
+  constructor; cbn; try exact HP0; try apply pkt0_outp_ok; try apply hq0_ok;
     try apply repeat_length; try lia;
     try (apply Forall_repeat; first [apply pkt0_qe_ok | apply ce0_ok | reflexivity]).
 Qed.
+
+Lemma user_init_ok ip : user_ok (user_init ip).
+Proof. apply user_init_ok_gen, pkt0_in_ok. Qed.
 
 Lemma init_state_ok ips : state_ok (init_state ips) /\ length (init_state ips) = length ips.
 Proof.
@@ -247,3 +267,49 @@ Proof. intros Hst Hu. apply upd_ok; auto. Qed.
 (* a tactic for updates of fields: destruct the invariant, rebuild it field by field *)
 Ltac dok H := destruct H as [I_in I_out I_res I_q I_qs I_seed I_ql I_qf I_qn I_qfill I_cl I_cf I_clast I_pl I_pf I_plast I_dl I_df I_dlast].
 Ltac uok H := dok H; constructor; cbn; auto.
+
+(* ---- index-dependent form of the state invariant ----------------------------------------------- *)
+
+Definition sok (Q : nat -> pkt -> Prop) (st : sstate) : Prop :=
+  forall j u, nth_error st j = Some u -> user_ok_gen (Q j) u.
+
+Lemma sok_state_ok st : state_ok st <-> sok (fun _ => in_ok) st.
+Proof.
+  unfold state_ok, sok. rewrite Forall_forall. split.
+  - intros H j u Hu. apply H. eapply nth_error_In, Hu.
+  - intros H u Hu. apply In_nth_error in Hu. destruct Hu as [j Hj]. eapply H, Hj.
+Qed.
+
+Lemma sok_upd Q (st : sstate) i f : sok Q st ->
+  (forall u, user_ok_gen (Q i) u -> user_ok_gen (Q i) (f u)) -> sok Q (upd st i f).
+Proof.
+  intros H Hf j u Hu. destruct (Nat.eq_dec j i) as [->|Hne].
+  - destruct (nth_error st i) as [u0|] eqn:E.
+    + rewrite (upd_same f st i u0 E) in Hu. inversion Hu; subst. apply Hf. eapply H, E.
+    + apply nth_error_None in E.
+      assert (nth_error (upd st i f) i = None) by (apply nth_error_None; rewrite upd_length; exact E).
+      congruence.
+  - rewrite upd_other in Hu by exact Hne. eapply H, Hu.
+Qed.
+
+Lemma sok_getu Q (st : sstate) i : sok Q st -> (forall j, Q j pkt0) -> user_ok_gen (Q i) (getu st i).
+Proof.
+  intros H H0. unfold getu. destruct (nth_error st i) as [u|] eqn:E.
+  - rewrite (nth_error_nth _ _ _ E). eapply H, E.
+  - rewrite nth_overflow by (apply nth_error_None; exact E). apply user_init_ok_gen, H0.
+Qed.
+
+Lemma user_ok_gen_impl (P P' : pkt -> Prop) u : (forall p, P p -> P' p) -> user_ok_gen P u -> user_ok_gen P' u.
+Proof. intros HPP H. dok H. constructor; auto. Qed.
+
+(* weak at slot k, strong elsewhere *)
+Definition Qw (k : nat) : nat -> pkt -> Prop := fun j => if (j =? k)%nat then in_okw else in_ok.
+
+Lemma Qw_pkt0 k j : Qw k j pkt0.
+Proof. unfold Qw. destruct (j =? k)%nat; [apply in_ok_w|]; apply pkt0_in_ok. Qed.
+
+Lemma sok_weaken k st : state_ok st -> sok (Qw k) st.
+Proof.
+  intros H j u Hu. apply sok_state_ok in H. specialize (H j u Hu). unfold Qw.
+  destruct (j =? k)%nat; [|exact H]. eapply user_ok_gen_impl; [apply in_ok_w|exact H].
+Qed.
